@@ -162,8 +162,18 @@ fn run_t<T: SampleX>(w: Which, c0: &HistCase) -> Outcome {
                     o.fail(format!("fft-max:{}", kind.name()), format!("maxima ({},{}) differ from block arithmetic ({},{})", init.in_max, init.out_max, m.in_max(), m.out_max()));
                 }
             }
+            // buffers may have been obtained from the allocation helpers at any earlier point of the history:
+            // the advertised need must stay within the smallest maximum reported so far
+            let (mut min_in_max, mut min_out_max) = (init.in_max, init.out_max);
             for s in &tr.steps {
                 for (tag, g) in [("before", &s.before), ("after", &s.after)] {
+                    min_in_max = min_in_max.min(g.in_max);
+                    min_out_max = min_out_max.min(g.out_max);
+                    if g.in_next > min_in_max || g.out_next > min_out_max {
+                        if g.in_next <= init.in_max.min(g.in_max) && g.out_next <= init.out_max.min(g.out_max) {
+                            o.fail(format!("max-shrank:{}", kind.name()), format!("op {} {}: need ({}, {}) exceeds a maximum reported earlier in the history ({}, {}); a buffer allocated then is too small now", s.op, tag, g.in_next, g.out_next, min_in_max, min_out_max));
+                        }
+                    }
                     if g.in_next > init.in_max.min(g.in_max) {
                         o.fail(format!("in_next>in_max:{}", kind.name()), format!("op {} {}: input_frames_next {} > input_frames_max {} (at allocation time {})", s.op, tag, g.in_next, g.in_max, init.in_max));
                     }
